@@ -681,9 +681,12 @@ func raceIDFor(prop string, v *Vector) string {
 	if prop == "C13" {
 		return "C13.race-free"
 	}
-	if strings.Contains(v.Entry, "Concurrent") {
+	if strings.Contains(v.Entry, "Concurrent") || strings.Contains(v.Entry, "Interleaved") {
 		if strings.HasSuffix(v.Expect, "race-free") {
 			return v.Expect
+		}
+		if strings.Contains(v.Entry, "Interleaved") {
+			return prop + ".interleaved.race-free"
 		}
 		return prop + ".concurrent.race-free"
 	}
